@@ -62,6 +62,7 @@ fn run_fresh(timeout: i64, ops: &[i64], obs: &mut Vec<i64>) -> bool {
 
 pub fn exec(tag: i64, inp: &[i64]) -> Vec<i64> {
     match tag {
+        120 => exec_120(inp),
         130 | 140 => {
             let mut obs = Vec::new();
             if !run_fresh(inp[0], &inp[1..], &mut obs) {
@@ -238,5 +239,254 @@ pub fn gen_c13(tier: Tier, seed: u64, em: &mut Emitter) {
             }
         }
         em.emit_k("early-polls", 132, inp);
+    }
+}
+
+// ---------------------------------------------------------------------------------------------
+// C12: streams in the grammar of documented sequence forms (generator mirrors Spec/PollGrammar.v)
+// ---------------------------------------------------------------------------------------------
+#[derive(Copy, Clone, PartialEq, Debug)]
+enum G {
+    G0,
+    Sel1 { is_msb: bool, reg: bool },
+    Fresh,
+    Idle,
+    Lsb { t0: i64 },
+    Msb { t0: i64 },
+    C14,
+}
+
+#[derive(Copy, Clone, PartialEq, Debug)]
+enum Act {
+    Num { is_msb: bool, reg: bool },
+    Cc38,
+    Cc6,
+    Inc,
+    Dec,
+    Poll,
+    Noise,
+}
+
+fn allowed(g: G, a: Act, now: i64, timeout: i64) -> bool {
+    match (g, a) {
+        (_, Act::Noise) => true,
+        (G::Lsb { t0 }, Act::Poll) => now - t0 < timeout,
+        (_, Act::Poll) => true,
+        (G::G0, Act::Num { .. }) => true,
+        (G::G0, _) => false,
+        (G::Sel1 { is_msb, reg }, Act::Num { is_msb: k, reg: r }) => k != is_msb && r == reg,
+        (G::Sel1 { .. }, _) => false,
+        (G::Lsb { .. }, Act::Cc6) => true,
+        (G::Lsb { .. }, _) => false,
+        (G::Fresh, Act::Cc38) | (G::Msb { .. }, Act::Cc38) | (G::C14, Act::Cc38) => true,
+        (_, Act::Cc38) => false,
+        (_, Act::Num { .. }) | (_, Act::Cc6) | (_, Act::Inc) | (_, Act::Dec) => true,
+    }
+}
+
+fn next(g: G, a: Act, now: i64, timeout: i64) -> G {
+    match (g, a) {
+        (_, Act::Noise) => g,
+        (G::Msb { t0 }, Act::Poll) => {
+            if now - t0 >= timeout {
+                G::Idle
+            } else {
+                g
+            }
+        }
+        (_, Act::Poll) => g,
+        (G::Sel1 { .. }, Act::Num { .. }) => G::Fresh,
+        (_, Act::Num { is_msb, reg }) => G::Sel1 { is_msb, reg },
+        (G::Fresh, Act::Cc38) => G::Lsb { t0: now },
+        (_, Act::Cc38) => G::C14,
+        (G::Lsb { .. }, Act::Cc6) => G::C14,
+        (_, Act::Cc6) => G::Msb { t0: now },
+        (_, Act::Inc) | (_, Act::Dec) => G::Idle,
+    }
+}
+
+fn act_op(a: Act, c: i64, r: &mut Rng, fixed: Option<i64>, out: &mut Vec<i64>) {
+    let kind = if fixed.is_some() { 0 } else { r.pick(&[0i64, 0, 1, 5]) };
+    let v = fixed.unwrap_or_else(|| if r.chance(1, 3) { r.pick(&[0i64, 1, 127]) } else { r.below(128) as i64 });
+    match a {
+        Act::Num { is_msb, reg } => {
+            let n = match (is_msb, reg) {
+                (true, false) => 99,
+                (false, false) => 98,
+                (true, true) => 101,
+                (false, true) => 100,
+            };
+            out.extend_from_slice(&[kind, 176 + c, n, v]);
+        }
+        Act::Cc38 => out.extend_from_slice(&[kind, 176 + c, 38, v]),
+        Act::Cc6 => out.extend_from_slice(&[kind, 176 + c, 6, v]),
+        Act::Inc => out.extend_from_slice(&[kind, 176 + c, 96, v]),
+        Act::Dec => out.extend_from_slice(&[kind, 176 + c, 97, v]),
+        Act::Poll => out.extend_from_slice(&[3, c, 0, 0]),
+        Act::Noise => match r.below(3) {
+            0 => out.extend_from_slice(&[kind, 176 + c, r.pick(&[0i64, 7, 39, 64, 95, 102, 127]), v]),
+            1 => out.extend_from_slice(&[kind, 144 + c, 60, v]),
+            _ => out.extend_from_slice(&[0, 248, 0, 0]),
+        },
+    }
+}
+
+const ACTS: [Act; 10] = [
+    Act::Num { is_msb: true, reg: false },
+    Act::Num { is_msb: false, reg: false },
+    Act::Num { is_msb: true, reg: true },
+    Act::Num { is_msb: false, reg: true },
+    Act::Cc38,
+    Act::Cc6,
+    Act::Inc,
+    Act::Dec,
+    Act::Poll,
+    Act::Noise,
+];
+
+pub fn exec_120(inp: &[i64]) -> Vec<i64> {
+    let (timeout, np) = (inp[0], inp[1] as usize);
+    let prior = &inp[2..2 + 4 * np];
+    let sentence = &inp[2 + 4 * np..];
+    let mut sc = match region(|| new_scanner(timeout)) {
+        Some(s) => s,
+        None => return vec![PANIC],
+    };
+    let mut clock = Clock(0);
+    let mut scratch = Vec::new();
+    if !run_ops(&mut sc, &mut clock, prior, &mut scratch) {
+        return vec![PANIC];
+    }
+    let mut obs = Vec::new();
+    if !run_ops(&mut sc, &mut clock, sentence, &mut obs) {
+        return vec![PANIC];
+    }
+    obs
+}
+
+pub fn gen_c12(tier: Tier, seed: u64, em: &mut Emitter) {
+    let mut r = Rng::new(seed ^ 0xC12);
+    // bounded-exhaustive: every conforming action sequence up to a depth, one channel, fixed
+    // values, with time steps landing below / at the timeout between any two actions
+    for &timeout in &[0i64, 5] {
+        let depth = if tier == Tier::Thorough { 8 } else { 6 };
+        // actions of the exhaustive part: one selection flavour, all value forms, poll, two ticks
+        #[derive(Copy, Clone)]
+        enum X {
+            A(Act),
+            Tick(i64),
+        }
+        let alphabet = [
+            X::A(Act::Num { is_msb: true, reg: false }),
+            X::A(Act::Num { is_msb: false, reg: false }),
+            X::A(Act::Cc38),
+            X::A(Act::Cc6),
+            X::A(Act::Inc),
+            X::A(Act::Poll),
+            X::Tick(timeout),
+            X::Tick((timeout - 1).max(0)),
+        ];
+        fn rec(
+            alphabet: &[X; 8], depth: u32, g: G, now: i64, timeout: i64, ops: &mut Vec<i64>, vcount: i64,
+            em: &mut Emitter, r: &mut Rng,
+        ) {
+            if !ops.is_empty() {
+                let mut inp = vec![timeout, 0];
+                inp.extend_from_slice(ops);
+                em.emit_k("grammar-exhaustive", 120, inp);
+            }
+            if depth == 0 {
+                return;
+            }
+            for x in alphabet.iter() {
+                match *x {
+                    X::A(a) => {
+                        if !allowed(g, a, now, timeout) {
+                            continue;
+                        }
+                        let len = ops.len();
+                        act_op(a, 0, r, Some(1 + vcount % 120), ops);
+                        rec(alphabet, depth - 1, next(g, a, now, timeout), now, timeout, ops, vcount + 1, em, r);
+                        ops.truncate(len);
+                    }
+                    X::Tick(dt) => {
+                        if timeout == 0 && dt == 0 && depth < 100 {
+                            // a zero tick is a no-op; keep one flavour only
+                            if let X::Tick(_) = alphabet[7] {
+                                if std::ptr::eq(x, &alphabet[7]) {
+                                    continue;
+                                }
+                            }
+                        }
+                        let len = ops.len();
+                        ops.extend_from_slice(&[4, dt, 0, 0]);
+                        rec(alphabet, depth - 1, g, now + dt, timeout, ops, vcount, em, r);
+                        ops.truncate(len);
+                    }
+                }
+            }
+        }
+        let mut ops = Vec::new();
+        rec(&alphabet, depth, G::G0, 0, timeout, &mut ops, 0, em, &mut r);
+    }
+    // seeded random: arbitrary prior traffic, then interleaved conforming streams on up to 16
+    // channels with random values, polls, noise and time steps
+    let n = if tier == Tier::Thorough { 200_000 } else { 8_000 };
+    for _ in 0..n {
+        let timeout = r.pick(&TIMEOUTS);
+        let mut prior = Vec::new();
+        let np = if r.chance(1, 3) { 0 } else { random_history(&mut r, timeout, 30, &mut prior) };
+        // the clock after the prior part
+        let mut now: i64 = prior.chunks(4).filter(|o| o[0] == 4).map(|o| o[1]).sum();
+        let nch = r.pick(&[1usize, 1, 2, 3, 16]);
+        let mut gs = vec![G::G0; 16];
+        let mut ops = Vec::new();
+        let len = r.below(if tier == Tier::Thorough { 120 } else { 60 });
+        for _ in 0..len {
+            if r.chance(1, 6) {
+                let dt = time_step(&mut r, timeout);
+                now += dt;
+                ops.extend_from_slice(&[4, dt, 0, 0]);
+                continue;
+            }
+            let c = r.below(nch as u64) as usize;
+            let cands: Vec<Act> = ACTS.iter().copied().filter(|&a| allowed(gs[c], a, now, timeout)).collect();
+            // prefer grammar tokens over gaps
+            let a = if r.chance(3, 4) {
+                let toks: Vec<Act> = cands.iter().copied().filter(|a| !matches!(a, Act::Poll | Act::Noise)).collect();
+                if toks.is_empty() { r.pick(&cands) } else { r.pick(&toks) }
+            } else {
+                r.pick(&cands)
+            };
+            act_op(a, c as i64, &mut r, None, &mut ops);
+            gs[c] = next(gs[c], a, now, timeout);
+        }
+        let mut inp = vec![timeout, np as i64];
+        inp.extend_from_slice(&prior);
+        inp.extend_from_slice(&ops);
+        em.emit_k(&format!("grammar-random/timeout={}", timeout), 120, inp);
+    }
+    // encode / feed / poll after the timeout (both byte orders, all 8 kinds, any prior traffic)
+    let n = if tier == Tier::Thorough { 100_000 } else { 4_000 };
+    for _ in 0..n {
+        let timeout = r.pick(&[0i64, 1, 5, 1000]);
+        let mut prior = Vec::new();
+        let np = random_history(&mut r, timeout, 30, &mut prior);
+        let c = r.below(16) as i64;
+        let k = r.below(8) as i64;
+        let is14 = k == 1 || k == 5;
+        let v = if is14 { r.below(16384) as i64 } else { r.below(128) as i64 };
+        let msg = crate::nrpn::ctor(k, ch(c), u14(r.below(16384) as i64), v);
+        let enc: [Option<RawShortMessage>; 4] = msg.to_short_messages(crate::nrpn::order(r.below(2) as i64));
+        let mut ops = Vec::new();
+        for m in enc.iter().flatten() {
+            ops.push(r.pick(&[0i64, 1, 5]));
+            ops.extend_from_slice(&bytes_of(m));
+        }
+        ops.extend_from_slice(&[4, timeout, 0, 0, 3, c, 0, 0]);
+        let mut inp = vec![timeout, np as i64];
+        inp.extend_from_slice(&prior);
+        inp.extend_from_slice(&ops);
+        em.emit_k("encode-feed-poll", 120, inp);
     }
 }
